@@ -57,6 +57,8 @@ type world struct {
 	vest                     vestModel
 	crashNext                int
 	voteMode                 int
+	evidenceBlock            bool // the block in progress reports validator misbehaviour
+	slashed                  bool // some validator has been slashed: shares are no longer worth one token each
 	lastSupply               sdk.Coins
 	suicided                 map[string]bool
 	pairCache                map[string]aggregatetypes.TokenPair
